@@ -178,7 +178,7 @@ def take_rule(ctx, fc):
     if clo is None:
         ctx.fail("C07.T", "count_chunk:worker", "spawned worker closure not found", fc.fn["sp"])
         return
-    loops = [n for n in walk(clo) if n.get("k") == "loop"]
+    loops = [n for n in walk(clo) if n.get("k") in ("loop", "while")]
     if not loops:
         ctx.fail("C07.T", "count_chunk:worker_loop", "worker loop not found", line_of(clo))
         return
@@ -272,7 +272,25 @@ def chunk_rule(ctx, fn, fc):
     creates = fc.calls_to("std::fs::File::create")
     rets = [n for n in fc.nodes if n.get("k") == "ret"]
     ok0 = len(rets) == 1 and fc.term(rets[0].get("e")) == L(0)
-    if ok0:
+    alt_guarded = False
+    if not rets and creates:
+        # no early return: the files are written under `if records > 0 { .. }` after the counting scope
+        top_ = fc.body.get("stmts", []) + ([fc.body["expr"]] if fc.body.get("expr") is not None else [])
+        def idx_of_(node):
+            for i, s in enumerate(top_):
+                if any(x is node for x in walk(s)):
+                    return i
+            return 10 ** 6
+        spawn_idx_ = [idx_of_(n) for n in fc.nodes if n.get("k") == "mcall" and is_spawn(n)]
+        def nonzero(t, p):
+            if t[0] != "bin" or not any(x[0] == "call" and x[1].endswith("::load") for x in (t[2], t[3])):
+                return False
+            return (t[1] == "<" and t[2] == L(0) and p) or (t[1] == "!=" and L(0) in (t[2], t[3]) and p) or \
+                (t[1] == "==" and L(0) in (t[2], t[3]) and not p)
+        alt_guarded = bool(spawn_idx_) and all(
+            idx_of_(c) > max(spawn_idx_) and any(nonzero(fc.term(g), p) for g, p in fc.guards(c)) for c in creates)
+        ok0 = alt_guarded
+    elif ok0:
         top = fc.body.get("stmts", [])
         def idx_of(node):
             for i, s in enumerate(top):
@@ -292,12 +310,14 @@ def chunk_rule(ctx, fn, fc):
     taken_adds = []
     for a in adds:
         gs = [c for c, p in fc.guards(a) if p and c.get("k") == "letexpr"]
-        in_inner_loop = False
+        loops_ = []
         for anc in fc.ancestors(a):
             if anc.get("k") == "closure":
                 break
-            if anc.get("k") in ("for", "while"):
-                in_inner_loop = True
+            if anc.get("k") in ("for", "while", "loop"):
+                loops_.append(anc)
+        # the outermost loop of the worker closure is the record loop; anything nested in it is a per-record loop
+        in_inner_loop = len(loops_) > 1 or (len(loops_) == 1 and loops_[0].get("k") == "for")
         if gs and fc.in_closure_passed_to(a, is_spawn) is not None and not in_inner_loop:
             taken_adds.append(a)
     okc = len(taken_adds) == 1
@@ -306,6 +326,15 @@ def chunk_rule(ctx, fn, fc):
     ctx.check("C07.C", "count_chunk:records_counted", okc, "one fetch_add(1) per taken record",
               "expected exactly one `fetch_add(1)` on the records counter under `if let Some(record)` in the worker "
               "(found %d)" % len(taken_adds), line_of(taken_adds[0]) if taken_adds else fc.fn["sp"])
+    if alt_guarded and rec_ctr is not None:
+        res = fc.term(fc.body.get("expr")) if fc.body.get("expr") else ("none",)
+        okr = res[0] == "call" and res[1].endswith("::load") and res[2] == rec_ctr
+        gz = [fc.term(g) for c in creates for g, p in fc.guards(c)]
+        okz = any(contains(t, lambda s_: s_[0] == "call" and s_[1].endswith("::load") and s_[2] == rec_ctr) for t in gz)
+        ctx.check("C07.C", "count_chunk:empty_means_no_record", okz, "files are written exactly when the records counter is not 0",
+                  "the chunk files are written under a condition that is not `records taken > 0`", fc.fn["sp"])
+        ctx.check("C07.C", "count_chunk:returns_record_count", okr, "returns the number of records taken",
+                  "count_chunk returns `%s`, not the records counter" % show(res), fc.fn["sp"])
     if rets and rec_ctr is not None:
         gs = [(fc.term(c), p) for c, p in fc.guards(rets[0], with_asserts=False)]
         def is_zero_records(t, p):
